@@ -25,25 +25,53 @@ def r1(p, rep):
     rep.rule("C13.R1", "user values are only classified (type / shape / signature) while compiling, never called", "T-EFF / T-TAINT (USERDATA)", floor=6)
     f = p.func("_to_tracer", "frontend.api")
     param = f.params[0]
-    n_uses = 0
-    for n in walk_no_nested(f.node):
-        if isinstance(n, ast.Attribute) and n.attr == "value" and isinstance(n.value, ast.Name) and n.value.id == param:
-            n_uses += 1
+
+    def value_uses(fn, is_value, depth=0):
+        """[(site node, ok, why)] for every use of the user value inside fn.  `is_value(node)` recognises the value
+        expression (x.value or a local alias / a helper parameter)."""
+        out = []
+        aliases = set()
+        for n in walk_no_nested(fn.node):
+            if isinstance(n, ast.Assign) and len(n.targets) == 1 and isinstance(n.targets[0], ast.Name) and is_value(n.value):
+                aliases.add(n.targets[0].id)
+
+        def isv(n):
+            return is_value(n) or (isinstance(n, ast.Name) and n.id in aliases and isinstance(n.ctx, ast.Load))
+
+        for n in walk_no_nested(fn.node):
+            if not isv(n):
+                continue
             par = getattr(n, "_parent", None)
-            site = f"{f.module.rel}:{n.lineno}"
+            if isinstance(par, ast.Assign) and par.value is n:
+                continue  # the aliasing assignment itself
             ok, why = False, f"`{norm(par)[:60]}`"
             if isinstance(par, ast.Call) and n in par.args:
                 callee = attr_chain(par.func)
                 cname = callee[-1] if callee else None
-                ok = cname in ALLOWED_VALUE_CONSUMERS
-                why = f"argument of {cname}()"
+                if cname in ALLOWED_VALUE_CONSUMERS:
+                    ok, why = True, f"argument of {cname}()"
+                else:
+                    r = resolve_callee(p, par, fn.module)
+                    if r and r[0] == "func" and r[1].module is fn.module and depth < 2:
+                        h = r[1]
+                        idx = par.args.index(n)
+                        hp = h.params[idx] if idx < len(h.params) else None
+                        if hp:
+                            sub = value_uses(h, lambda m, hp=hp: isinstance(m, ast.Name) and m.id == hp and isinstance(m.ctx, ast.Load), depth + 1)
+                            ok = all(o for _, o, _ in sub)
+                            why = f"passed to helper {h.name}: " + "; ".join(sorted({w for _, _, w in sub}))[:120]
             elif isinstance(par, ast.Attribute) and par.attr in ("shape", "dtype", "ndim"):
                 ok, why = True, f"only .{par.attr} is read"
             elif isinstance(par, ast.Call) and par.func is n:
                 ok, why = False, "the user value is CALLED at trace time (a tensor factory would run while compiling / once per compilation instead of once per call)"
-            rep.add("C13.R1", f"{f.qualname}:use({norm(par)[:50]})", site, ok, why)
-    if n_uses < 5:
-        raise AnalysisError(f"unrecognised idiom: _to_tracer reads {param}.value only {n_uses} times")
+            out.append((n, ok, why))
+        return out
+
+    uses_ = value_uses(f, lambda n: isinstance(n, ast.Attribute) and n.attr == "value" and isinstance(n.value, ast.Name) and n.value.id == param)
+    for n, ok, why in uses_:
+        rep.add("C13.R1", f"{f.qualname}:use({why[:50]})", f"{f.module.rel}:{n.lineno}", ok, why)
+    if len(uses_) < 4:
+        raise AnalysisError(f"unrecognised idiom: _to_tracer uses {param}.value only {len(uses_)} times")
     # _get_signature: the function object only reaches inspect.signature
     g = p.func("_get_signature", "frontend.api")
     gp = g.params[0]
@@ -62,6 +90,12 @@ def r1(p, rep):
                 targs = n.targets[0].elts[-1].id
         if targs is None:
             raise AnalysisError(f"unrecognised idiom: {f.qualname} does not unpack _split_tensors(...)")
+        compiled_params = {}
+        for c in calls:
+            hh = getattr(c, "_helper", None)
+            if hh is not None:
+                compiled_params.setdefault(id(hh[0]), set()).add(hh[2])
+
         def uses(fn, name, depth=0):
             """[(node, ok, why)] for every load of `name` in fn; passing it on to a helper of the same module is
             followed into the helper (depth <= 2)."""
@@ -73,7 +107,7 @@ def r1(p, rep):
                     ok, why = False, norm(ctx)[:60]
                     if isinstance(ctx, ast.Call):
                         callee = norm(ctx.func)
-                        if callee in fn_names and fn is f:
+                        if (callee in fn_names and fn is f) or callee in compiled_params.get(id(fn), ()):
                             ok, why = True, "arguments of the compiled function (run time)"
                         elif callee.endswith("registry.get"):
                             ok, why = True, "backend resolution (types only)"
@@ -120,7 +154,7 @@ def r2(p, rep):
                     ok = False
             rep.add(
                 "C13.R2",
-                f"{f.qualname}:call({call.func.id})",
+                f"{f.qualname}:call({c03.callee_label(call)})",
                 f"{f.module.rel}:{call.lineno}",
                 ok,
                 "the compiled function only runs on the false edge of `if graph`" if ok else "the compiled function is executed even when graph=True (runs factories and in-place updates although only the source text was requested)",
@@ -143,7 +177,13 @@ def _assert_calls(p, f):
                 kind = ch[-1]
                 what = None
                 if kind == "assert_" and len(n.value.args) >= 2:
-                    cond = norm(n.value.args[1])
+                    cnode = n.value.args[1]
+                    if isinstance(cnode, ast.Name):
+                        # condition bound to a local first: has_expected_shape = equal(tuple(x.shape), expected)
+                        defs = [a.value for a in walk_no_nested(f.node) if isinstance(a, ast.Assign) and any(isinstance(t, ast.Name) and t.id == cnode.id for t in a.targets) and a.lineno <= n.lineno]
+                        if defs:
+                            cnode = defs[-1]
+                    cond = norm(cnode)
                     if "isinstance(" in cond:
                         what = "type"
                     elif ".shape" in cond and "equal(" in cond:
@@ -154,13 +194,15 @@ def _assert_calls(p, f):
     return out
 
 
-def checked_before_trusted(p, rep, rid, f, require_type_guard=None):
+def checked_before_trusted(p, rep, rid, f, require_type_guard=None, optional=False):
     """T-MPT: every cast of a pipeline variable to a trusted Tensor is dominated by a shape assert and a
     type assert on the same variable (the type assert may only be skipped under `<require_type_guard> is not None`)."""
     cfg = CFG(f.node)
     items = _assert_calls(p, f)
     casts = [(n, v) for n, v, kind, what in items if kind == "cast" and "Tensor" in norm(n.value)]
     if not casts:
+        if optional:
+            return False
         raise AnalysisError(f"unrecognised idiom: no cast(<var>, ... Tensor ...) pipeline step in {f.qualname}")
     for cn, var in casts:
         cnode = cfg.node_for(cn)
@@ -192,6 +234,7 @@ def checked_before_trusted(p, rep, rid, f, require_type_guard=None):
         # and the cast comes last: no assert on var is dominated by the cast
         late = [a for a, v, kind, what in items if v == var and kind == "assert_" and what in ("shape", "type") and cfg.node_for(a) is not None and cfg.dominates(cnode, cfg.node_for(a))]
         rep.add(rid, f"{f.qualname}:{var}:cast-last", site, not late, "no check is placed after the cast" if not late else f"assert at line {late[0].lineno} runs on the already cast value (tautology)")
+    return True
 
 
 def r3(p, rep):
@@ -246,36 +289,65 @@ def r5(p, rep):
         ok2 = len(defs) == 1 and ".shape" in norm(defs[0]) and "tuple(" in norm(defs[0])
         rep.add("C13.R5", f"{f.qualname}:shape-derivation", site, ok2, f"{shape_var} = {[norm(d) for d in defs]}")
     kw = common.kwarg(c, "kwargs")
-    # kwargs must be the comprehension filtered by use_parameter
-    kdefs = [n.value for n in walk_no_nested(f.node) if isinstance(n, ast.Assign) and any(isinstance(t, ast.Name) and t.id == "kwargs" for t in n.targets)]
-    filt = [d for d in kdefs if isinstance(d, ast.DictComp) and any("use_parameter(" in norm(i) for g in d.generators for i in g.ifs)]
-    cfg = CFG(f.node)
-    ok3 = bool(filt) and isinstance(kw, ast.Name) and kw.id == "kwargs"
-    if ok3:
-        fnode = cfg.node_for([n for n in walk_no_nested(f.node) if isinstance(n, ast.Assign) and n.value is filt[0]][0])
-        ok3 = cfg.dominates(fnode, cfg.node_for(c))
-    rep.add("C13.R5", f"{f.qualname}:kwargs-filter", site, ok3, "keywords filtered by use_parameter(name) before the call" if ok3 else "the traced call does not pass the use_parameter-filtered keywords")
+    # the keywords handed to the factory are filtered by what the factory declares
+    ok3, why3 = False, "the traced call does not pass keywords filtered by the factory's declared parameters"
+    if isinstance(kw, ast.Name):
+        kdefs = [n for n in walk_no_nested(f.node) if isinstance(n, ast.Assign) and any(isinstance(t, ast.Name) and t.id == kw.id for t in n.targets)]
+        cfg = CFG(f.node)
+        cnode = cfg.node_for(c)
+        for d in kdefs:
+            v = d.value
+            filtered = False
+            if isinstance(v, ast.DictComp) and any(g.ifs for g in v.generators):
+                cond = " ".join(norm(i) for g in v.generators for i in g.ifs)
+                filtered = "use_parameter(" in cond or "parameters" in cond
+            elif isinstance(v, ast.Call):
+                r = resolve_callee(p, v, f.module)
+                if r and r[0] == "func" and r[1].module is f.module:
+                    body = " ".join(norm(st) for st in r[1].node.body)
+                    filtered = ("parameters" in body and ".kind" in body) and ("if " in body)
+                    passes_params = any("parameters" in norm(a) for a in v.args)
+                    filtered = filtered and passes_params
+            if filtered and cfg.dominates(cfg.node_for(d), cnode):
+                # no later unfiltered re-definition reaches the call
+                later = [x for x in kdefs if x.lineno > d.lineno and x.lineno < c.lineno]
+                if not later:
+                    ok3, why3 = True, f"`{kw.id}` is filtered by the factory's declared parameters before the call"
+    rep.add("C13.R5", f"{f.qualname}:kwargs-filter", site, ok3, why3)
 
 
 def r6(p, rep):
     rep.rule("C13.R6", "a callable argument becomes a shape-less tracer keyed by type and inspected signature", "T-DER", floor=2)
     f = p.func("_to_tracer", "frontend.api")
-    cfg = CFG(f.node)
     found = False
-    for n in walk_no_nested(f.node):
-        if isinstance(n, ast.Return) and isinstance(n.value, ast.Call) and norm(n.value.func).endswith("ConvertibleTensor"):
-            facts = [(norm(t), pol) for t, pol in cfg.guards(cfg.node_for(n))]
-            if any(t.startswith("callable(") and pol for t, pol in facts):
-                found = True
-                shape = common.kwarg(n.value, "shape")
-                conc = common.kwarg(n.value, "concrete")
-                ok_shape = isinstance(shape, ast.Constant) and shape.value is None
-                rep.add("C13.R6", f"{f.qualname}:factory:shape", f"{f.module.rel}:{n.lineno}", ok_shape, f"shape={norm(shape) if shape is not None else None} (a factory contributes no size constraint)")
+    for g in common.with_helpers(p, f):
+        cfg = CFG(g.node)
+        for n in walk_no_nested(g.node):
+            if isinstance(n, ast.Call) and norm(n.func).endswith("ConvertibleTensor"):
+                conc = common.kwarg(n, "concrete")
+                if isinstance(conc, ast.Name):
+                    cdefs = [a.value for a in walk_no_nested(g.node) if isinstance(a, ast.Assign) and any(isinstance(t, ast.Name) and t.id == conc.id for t in a.targets)]
+                    conc = cdefs[-1] if cdefs else conc
                 ctext = norm(conc) if conc is not None else ""
-                ok_conc = "type=" in ctext and "parameters=" in ctext and "_get_signature(" in ctext
-                rep.add("C13.R6", f"{f.qualname}:factory:concrete", f"{f.module.rel}:{n.lineno}", ok_conc, f"concrete={ctext[:80]}")
+                if "parameters=" not in ctext:
+                    continue  # the array / scalar arms
+                found = True
+                shape = common.kwarg(n, "shape")
+                ok_shape = isinstance(shape, ast.Constant) and shape.value is None
+                rep.add("C13.R6", f"{f.qualname}:factory:shape", f"{g.module.rel}:{n.lineno}", ok_shape, f"shape={norm(shape) if shape is not None else None} (a factory contributes no size constraint)")
+                ok_conc = "type=" in ctext and "_get_signature(" in ctext
+                rep.add("C13.R6", f"{f.qualname}:factory:concrete", f"{g.module.rel}:{n.lineno}", ok_conc, f"concrete={ctext[:80]}")
+                # reached only for callables: guard at the construction or at the helper's call site
+                facts = [(norm(t), pol) for t, pol in cfg.guards_of_ast(n)]
+                if g is not f:
+                    cf = CFG(f.node)
+                    for c in walk_no_nested(f.node):
+                        if isinstance(c, ast.Call) and resolve_callee(p, c, f.module) == ("func", g):
+                            facts += [(norm(t), pol) for t, pol in cf.guards_of_ast(c)]
+                ok_guard = any(t.startswith("callable(") and pol for t, pol in facts)
+                rep.add("C13.R6", f"{f.qualname}:factory:guard", f"{g.module.rel}:{n.lineno}", ok_guard, "only callables take this arm" if ok_guard else f"the factory arm is reached under {facts}")
     if not found:
-        raise AnalysisError("unrecognised idiom: no `callable(x.value)` branch returning a ConvertibleTensor in _to_tracer")
+        raise AnalysisError("unrecognised idiom: no ConvertibleTensor(concrete=...parameters=...) construction reachable from _to_tracer")
 
 
 def run(p, rep, tier):
